@@ -8,8 +8,9 @@ VIOLATION. Writes /verif/seeded/MATRIX.tsv and /verif/seeded/expected.json (id -
 used by the must-fail phase of the thorough tier)."""
 import json, os, subprocess, sys, shutil
 
-WT = "/var/tmp/scratch/wt-matrix"
-OUT = "/var/tmp/scratch/matrix-out"
+W = os.environ.get("MATRIX_WORKER", "")
+WT = "/var/tmp/scratch/wt-matrix" + W
+OUT = "/var/tmp/scratch/matrix-out" + W
 INSTANCE = ["C03", "C04", "C05"]
 # package directory -> function-level checks that load it (engine/driver/props.go)
 BY_DIR = {
@@ -81,6 +82,9 @@ def main():
     for k, v in old.items():
         expected.setdefault(k, v) if k not in ids else None
     head = subprocess.run(["git", "-C", "/repo", "rev-parse", "--short", "HEAD"], capture_output=True, text=True).stdout.strip()
+    if W:
+        json.dump({"rows": rows, "expected": expected, "head": head}, open(f"/var/tmp/scratch/matrix-part{W}.json", "w"))
+        return
     if len(ids) >= 38:
         with open("/verif/seeded/MATRIX.tsv", "w") as f:
             f.write(f"# seeded change x quick checks, /repo HEAD {head}; columns: id, checks reporting a VIOLATION [first obligations], checks UNDECIDED, checks run and clean\n")
